@@ -294,6 +294,24 @@ pub fn t3(prop: &str, seed: u64) -> RunDesc {
         }
         d.threads.push(thread(2, "upgrader-in-destructor", v));
     }
+    // a thread that only clones and drops Weak pointers to X: the weak count lives in the same
+    // word as the strong count and the flags, so it makes compare-exchanges on that word fail
+    // without touching what they are about
+    let weak_hammer = rng.chance(0.3);
+    if weak_hammer {
+        // (where possible it starts when the parent's pop_edges starts, i.e. just before the
+        // cascade turns to X)
+        let at_parent = child_in_parent && !in_destructor;
+        if at_parent {
+            d.cfg.signal_pop_class = 1;
+        }
+        let mut v = vec![o(K::Pin, 0, 0, 0, 0), o(K::LoadW, WROOT0, 0, 0, 0), o(K::WsCounted, 0, 0, 0, 0), o(K::Unpin, 0, 0, 0, 0), o(K::Await, if at_parent { 9 } else { 1 }, 0, 0, 0)];
+        for _ in 0..8 + rng.below(16) {
+            v.extend([o(K::CloneW, 0, 1, 0, 0), o(K::DropW, 1, 0, 0, 0)]);
+        }
+        v.push(o(K::DropW, 0, 0, 0, 0));
+        d.threads.push(thread(2, "weak-hammer", v));
+    }
     if two_owners {
         d.threads.push(thread(2, "retire-other-owner", vec![o(K::Await, 1, 0, 0, 0), o(K::Pin, 0, 0, 0, 0), o(K::Store, ROOT0, NONE_SLOT, 0, 0), o(K::Unpin, 0, 0, 0, 0)]));
     }
@@ -305,7 +323,7 @@ pub fn t3(prop: &str, seed: u64) -> RunDesc {
         let n = noise(&mut rng, 2, &d.cfg);
         d.threads.push(n);
     }
-    d.params = J::obj().set("template", "T3 upgrade racing destruction").set("child_in_parent", child_in_parent).set("link_age_rounds", age).set("upgrader_acts_during_pop_edges", in_destructor).set("two_owners_released_at_once", two_owners);
+    d.params = J::obj().set("template", "T3 upgrade racing destruction").set("child_in_parent", child_in_parent).set("link_age_rounds", age).set("upgrader_acts_during_pop_edges", in_destructor).set("two_owners_released_at_once", two_owners).set("weak_hammer", weak_hammer);
     d
 }
 
